@@ -335,7 +335,7 @@ def main(tier, seed):
              'values, and wild API-built ones (named reasons outside Expressible), plus the corpus; each rendered, re-parsed, '
              're-rendered twice. Non-trivial: >=1 table and >=2 features; distinct by content hash',
         explanation='Theorem flags_refs_roundtrip_partial (C02FlagsTables.lean): ANY positive number of tables with pairwise different names, each with any '
-                    'positive number of columns carrying any subset of pk / increment / unique / not null, possibly a one-line note and (switch on) any '
+                    'positive number of columns carrying any subset of pk / increment / unique / not null, possibly an integer default, a one-line note and (switch on) any '
                     'number of properties, FOLLOWED BY any positive number of pairwise different standalone single-column references between their '
                     'columns, round-trips exactly (tables, columns, settings, notes, properties, references resolved by name back to the positions they '
                     'were written from); an instance of form_refs_roundtrip / form_tables_roundtrip, which are generic in the form of the column lines. '
